@@ -306,6 +306,13 @@ def weight_dma(V, **params):
     return c08.encode(V, **params)
 
 
+def restripe_buffers(V, **params):
+    """SRAM weight buffers of a re-striped schedule are sized from the re-encoded weights (harness/c10.py restripe_buffers)"""
+    from harness import c10
+
+    return c10.restripe_buffers(V, **params)
+
+
 def programmed_kernel(V, **params):
     """the footprint the compiler analyses (check_mem_limits, address ranges) is derived from the operation's shapes and strides; the NPU derives
     the rows and columns it reads from the KERNEL_STRIDE / KERNEL_SIZE registers - they must carry the operation's kernel, or the hardware reads
@@ -459,7 +466,7 @@ def footprint_strided(V, first_dense):
     return [("every element of the strided view lies inside a declared address range", z3.Or(*inside) if inside else z3.BoolVal(False))]
 
 
-FUNCS = {"programmed_kernel": programmed_kernel, "footprint_strided": footprint_strided, "format_rules": format_rules, "tile_padding": tile_padding, "rolling_dims": rolling_dims, "weight_dma": weight_dma, "buffering": buffering, "weight_ranges": weight_ranges, "idle_core": idle_core, "fm_in_tensor": fm_in_tensor, "lr_rolling": lr_rolling, "nhcwb16_shapes": nhcwb16_shapes, "footprint": footprint, "mem_limits": mem_limits, "rolling": rolling, "regions": regions}
+FUNCS = {"restripe_buffers": restripe_buffers, "programmed_kernel": programmed_kernel, "footprint_strided": footprint_strided, "format_rules": format_rules, "tile_padding": tile_padding, "rolling_dims": rolling_dims, "weight_dma": weight_dma, "buffering": buffering, "weight_ranges": weight_ranges, "idle_core": idle_core, "fm_in_tensor": fm_in_tensor, "lr_rolling": lr_rolling, "nhcwb16_shapes": nhcwb16_shapes, "footprint": footprint, "mem_limits": mem_limits, "rolling": rolling, "regions": regions}
 
 
 def instances(tier, seed):
@@ -499,6 +506,8 @@ def instances(tier, seed):
     for gname in ("weights", "biases"):
         out.append(dict(key="idle_core/%s" % gname, fn="idle_core", params=dict(accel="Ethos_U65_512", kind="conv", group=gname, light=True), weight=100))
     out.append(dict(key="rolling_dims", fn="rolling_dims", params={}))
+    for nb in (1, 2):
+        out.append(dict(key="restripe_buffers/%d" % nb, fn="restripe_buffers", params=dict(nbuf=nb)))
     for accel, kinds in (("Ethos_U55_128", ("conv",) if tier == "quick" else ("conv", "dw", "pool")), ("Ethos_U65_512", ("dw",) if tier == "quick" else ("conv", "dw", "pool"))):
         for kind in kinds:
             out.append(dict(key="programmed_kernel/%s/%s" % (accel, kind), fn="programmed_kernel", params=dict(accel=accel, kind=kind, group="kernel"), weight=100))
